@@ -535,6 +535,16 @@ func (e *Engine) run(st *State) {
 					}
 				}
 			default:
+				if os.Getenv("STACK") != "" {
+					fmt.Fprintln(os.Stderr, "ENGINE PANIC", r)
+					for _, fr := range st.frames {
+						fmt.Fprintln(os.Stderr, "   at", fr.fn, "block", fr.block.Index, "ip", fr.ip)
+					}
+					if len(st.frames) > 0 {
+						fr := st.frames[len(st.frames)-1]
+						fmt.Fprintln(os.Stderr, "   instr:", fr.block.Instrs[fr.ip])
+					}
+				}
 				panic(r)
 			}
 		}
